@@ -30,12 +30,16 @@ W = 64  # item coding of the model driver: sizes must stay below
 DEFAULT_BUF = 32768     # only used to classify cases (features); the model takes the value re-read from the source
 MACRO_BUF = 5           # the second impl binary is compiled with -DDUNE_PARALLEL_MAX_COMMUNICATION_BUFFER_SIZE=5
 API = {0: "ctor(MPI_Comm,map,size)", 1: "ctor(MPI_Comm,map)", 2: "ctor(Interface,size)", 3: "ctor(Interface)", 4: "copy-ctor",
-       5: "copy-assign+self-assign", 6: "object reused", 7: "non-default Allocator"}
-DTYPE = {0: "long", 1: "double", 2: "int", 3: "POD struct (generic MPITraits)", 4: "std::pair<int,double>"}
+       5: "copy-assign+self-assign", 6: "object reused", 7: "non-default Allocator", 8: "original used after its copy",
+       9: "source used after assignment", 10: "construct from std::move", 11: "std::swap", 12: "map rebuilt between calls",
+       13: "object reused with other handle kind/DataType"}
+DTYPE = {0: "long", 1: "double", 2: "int", 3: "POD struct (generic MPITraits)", 4: "std::pair<int,double>", 5: "long double",
+         6: "std::complex<double>", 7: "FieldVector<double,2>"}
+COMMKIND = {0: "split, world order", 1: "split, reversed ranks", 2: "split, rotated ranks", 3: "dup of split", 4: "MPI_COMM_SELF"}
 
 
-def fmt_case(P, mode, d, buf, seed, NI, entries, sizes, v=0, t=0, mb=0):
-    tail = [v, t, mb]
+def fmt_case(P, mode, d, buf, seed, NI, entries, sizes, v=0, t=0, mb=0, k=0, hk=0, al=0):
+    tail = [v, t, mb, k, hk, al]
     t = [P, mode, d, buf, seed, NI, len(entries)]
     for (p, q, f, s) in entries:
         t += [p, q, len(f)] + f + [len(s)] + s
@@ -57,9 +61,9 @@ def parse_case(line):
         es.append((p, q, f, s))
     sizes = [t[i + r * NI: i + (r + 1) * NI] for r in range(P)]
     i += P * NI
-    v, dt, mb = (t[i:i + 3] + [0, 0, 0])[:3]
+    v, dt, mb, ck, hk, al = (t[i:i + 6] + [0, 0, 0, 0, 0, 0])[:6]
     eff = buf if v not in (1, 3) else (mb or DEFAULT_BUF)      # buffer the constructor ends up with
-    return dict(P=P, mode=mode, dir=d, buf=eff, buf_field=buf, seed=seed, NI=NI, entries=es, sizes=sizes, v=v, t=dt, mb=mb)
+    return dict(P=P, mode=mode, dir=d, buf=eff, buf_field=buf, seed=seed, NI=NI, entries=es, sizes=sizes, v=v, t=dt, mb=mb, k=ck, hk=hk, al=al)
 
 
 def links_of(c):
@@ -99,8 +103,12 @@ def gen_one(rng, maxP, allow_allzero, force_allzero=False, mb=0):
     d = rng.choice([0, 1])
     NI = rng.choice([1, 2, 3, 4, 6])
     buf = rng.choice([1, 2, 3, 4, 5, 7, 8, 16, 40, 32768])
-    v = 0 if rng.random() < 0.45 else rng.randrange(8)
-    dt = 0 if rng.random() < 0.3 else rng.randrange(5)
+    v = 0 if rng.random() < 0.35 else rng.randrange(14)
+    dt = 0 if rng.random() < 0.25 else rng.randrange(8)
+    ck = 0 if rng.random() < 0.3 else rng.choice([1, 1, 2, 3, 4])
+    if ck == 4 and P != 1: ck = 1
+    hk = 1 if dt <= 1 and rng.random() < 0.4 else 0
+    al = 1 if rng.random() < 0.5 else 0
     if mb:
         v = rng.choice([1, 3, 1, 3, 0, 2, 4])
         buf = mb if v in (1, 3) else rng.choice([1, 2, 3, mb, mb + 2])
@@ -117,12 +125,15 @@ def gen_one(rng, maxP, allow_allzero, force_allzero=False, mb=0):
     for (p, q) in pairs:
         if p == q:
             n = rng.choice(lens)
-            ent[(p, p)] = (rl(n), rl(n))
+            a = rl(n)
+            ent[(p, p)] = (a, list(a) if rng.random() < 0.4 else rl(n))       # equal lists: candidates for shared storage
         else:
             n1, n2 = rng.choice(lens), rng.choice(lens)
             if rng.random() < 0.3: n2 = n1
             ent[(p, q)] = (rl(n1), rl(n2))      # p.first -> q.second (n1) ; q.first -> p.second (n2)
             ent[(q, p)] = (rl(n2), rl(n1))
+            if n1 == n2 and rng.random() < 0.5:  # equal first and second list at p: candidates for a shared index array
+                ent[(p, q)] = (ent[(p, q)][0], list(ent[(p, q)][0]))
     entries = [(p, q, ent[(p, q)][0], ent[(p, q)][1]) for (p, q) in sorted(ent)]
     top = min(buf, W - 1)
     if mode == 0:
@@ -145,7 +156,7 @@ def gen_one(rng, maxP, allow_allzero, force_allzero=False, mb=0):
                 if sl and not any(sizes[p][i] for i in sl):
                     sizes[p][rng.choice(sl)] = rng.choice([x for x in alpha if x > 0] or [1])
     seed = rng.randrange(1, 1 << 30) if rng.random() < 0.85 else 0
-    return fmt_case(P, mode, d, buf, seed, NI, entries, sizes, v, dt, mb)
+    return fmt_case(P, mode, d, buf, seed, NI, entries, sizes, v, dt, mb, ck, hk, al)
 
 
 def default_buffer():
@@ -174,6 +185,9 @@ def special_member_cases(rng):
     # fixed size D+1 in a buffer of exactly D+1 items (copy), one rank with a self interface (assignment + self-assignment)
     cs.append(fmt_case(2, 0, 0, D + 1, seed(), 2, [(0, 1, [1, 0], []), (1, 0, [], [0, 1])], [[D + 1, D + 1], [D + 1, D + 1]], 4, 0, 0))
     cs.append(fmt_case(1, 1, 0, big, seed(), 3, [(0, 0, [0, 1, 2], [2, 0, 1])], [[1, big, 0]], 5, 2, 0))
+    # the DEFAULT buffer (constructors without size) exactly full: one index of D items, then one more item
+    cs.append(fmt_case(2, 1, 0, 5, seed(), 2, [(0, 1, [0, 1], [1]), (1, 0, [1], [1, 0])], [[D, 1], [0, 1]], 1, 0, 0, 1, 0, 0))
+    cs.append(fmt_case(2, 0, 1, 5, seed(), 1, [(0, 1, [0], [0, 0]), (1, 0, [0, 0], [0])], [[D], [D]], 3, 1, 0, 3, 1, 0))
     # smaller than the default, an index exactly filling the buffer
     for v in (4, 5):
         cs.append(fmt_case(2, 1, 0, 7, seed(), 3, [(0, 1, [0, 1, 2], [1]), (1, 0, [1], [2, 1, 0])], [[7, 7, 3], [0, 7, 0]], v, 3 if v == 4 else 0, 0))
@@ -394,13 +408,15 @@ def run(ctx):
     nviol = ndis = ndrift = nprecond = 0
     per_sig = {}
     match_cur = match_new = discriminating = 0
-    feats, dist = {}, {"mode": {}, "dir": {}, "P": {}, "buf": {}, "api_path": {}, "data_type": {}, "macro_buffer": {}}
+    feats, dist = {}, {"mode": {}, "dir": {}, "P": {}, "buf": {}, "api_path": {}, "data_type": {}, "macro_buffer": {}, "communicator": {}, "handle_class": {}, "shared_index_array": {}}
     rounds_hist = {}
     nontrivial = set()
     for c, a, m in zip(cases, io, mo):
         pc = parse_case(c)
         for k, v in (("mode", "var" if pc["mode"] else "fixed"), ("dir", "backward" if pc["dir"] else "forward"), ("P", pc["P"]), ("buf", pc["buf"]),
-                     ("api_path", API.get(pc["v"])), ("data_type", DTYPE.get(pc["t"])), ("macro_buffer", pc["mb"])):
+                     ("api_path", API.get(pc["v"])), ("data_type", DTYPE.get(pc["t"])), ("macro_buffer", pc["mb"]),
+                     ("communicator", COMMKIND.get(pc["k"])), ("handle_class", "const members" if pc["hk"] else "non-const members"),
+                     ("shared_index_array", int(bool(pc["al"] and any(f and f == s_ for _, _, f, s_ in pc["entries"]))))):
             dist[k][str(v)] = dist[k].get(str(v), 0) + 1
         for f in features(pc): feats[f] = feats.get(f, 0) + 1
         parts = m.split(" ## ")
